@@ -153,6 +153,12 @@ def noise_kinds(c, f):
         ("other-ioa-callsec-neg", [("rx", m_callsec(c, other, 1, neg=True), "noise")], True),
         ("other-ioa-callsec2-neg", [("rx", m_callsec(c, other, 2, neg=True), "noise")], True),
         ("other-conn-ack", [("rx2", m_ack(c, f, 1, 3), "noise")], False),
+        # a SELECT for ANOTHER file / name / station while this transfer runs (from the same master or from another connection):
+        # ignored, the running transfer keeps its identity
+        ("other-ioa-select", [("rx", m_select(c, other), "noise")], True),
+        ("other-nof-select", [("rx", m_select(c, File([3], ca=f.ca, ioa=f.ioa, nof=f.nof + 1)), "noise")], True),
+        ("other-ca-select", [("rx", m_select(c, File([3], ca=f.ca + 1, ioa=f.ioa, nof=f.nof)), "noise")], True),
+        ("other-conn-select", [("rx2", m_select(c, other), "noise")], True),
         ("deactivate", [("rx", c.asdu(122, 13, f.ca, f.ioa, nof2(f.nof) + bytes([0, 3])), "noise")], False),
         ("fileready-in", [("rx", m_fileready(c, f, 10), "noise")], False),
         ("secready-in", [("rx", m_secready(c, f, 1, 10), "noise")], False),
